@@ -1,14 +1,50 @@
 """C13 - copies are independent, links share what they advertise, pickles round-trip."""
 from harness.props import streams_common as sc
 
-FOCUS = ['construct', 'copy', 'pickle', 'pickle', 'copy_like', 'proxy', 'flow_proxy', 'link_with', 'unlink']
-SHAPING = ['set_flow', 'set_flow', 'set_T', 'set_P', 'set_phase', 'set_phases', 'empty', 'scale']
+FOCUS = ['construct', 'copy', 'pickle', 'pickle', 'copy_like', 'proxy', 'flow_proxy', 'link_with', 'unlink', 'flash_TP']
+SHAPING = ['set_flow', 'set_flow', 'set_T', 'set_P', 'set_phase', 'set_phases', 'empty', 'scale', 'reset_thermo']
 MC = dict(names=3, ops='c_OpsC13', phasesets='c_PhaseSets', depth='Depth5', depth_quick='Depth4',
           props=['IndependentUntouched'])
 
 
+def link_paths(rng, n):
+    """Directed schedules on universe mc3: what a link advertises is shared, the rest is not - also for cached views and for the
+    equilibrium solver objects.
+    (1) a view of the target is read, the target is linked with only SOME of flow / phase / thermal condition, the source changes the
+        shared part, the view is read again (C11's reading operations are judged here too);
+    (2) two multi-phase streams share their thermal condition (link or proxy), one is unlinked and then flashed: the other one stays."""
+    out = []
+    for k in range(n):
+        a, b = rng.sample(['a', 'b'], 2)
+        if k % 2:
+            flags = rng.choice([(False, True, False), (False, True, True), (True, False, False), (False, False, True), (True, True, False)])
+            ops = [('construct', dict(x=a, k='s', price=0, cf=0)), ('construct', dict(x=b, k='s', price=0, cf=0)),
+                   ('set_flow', dict(x=a, p='l', c=1, v=8)), ('set_flow', dict(x=b, p='l', c=1, v=4)), ('set_flow', dict(x=b, p='l', c=2, v=4))]
+            reads = [('vget', dict(x=b, p='l', c=1, view=rng.choice(['vol', 'mass']), how=rng.choice(['indexer', 'array']))),
+                     ('uget', dict(x=b, p='l', c=1, units=rng.choice(['m3/hr', 'kg/hr', 'L/min'])))]
+            ops += reads
+            ops.append(('link_with', dict(d=b, x=a, flow=flags[0], phase=flags[1], TP=flags[2])))
+            ops.append(rng.choice([('set_phase', dict(x=a, p='g')), ('set_T', dict(x=a, T=350)), ('set_flow', dict(x=a, p='l', c=1, v=12))]))
+            ops += [('vget', dict(x=b, p='g' if (flags[1] and ops[-1][0] == 'set_phase') else 'l', c=1, view=reads[0][1]['view'], how=reads[0][1]['how'])),
+                    ('tget', dict(x=b, which=rng.choice(['F_vol', 'F_mass', 'F_mol'])))]
+        else:
+            ops = [('construct', dict(x=a, k='m', price=0, cf=0)), ('construct', dict(x=b, k='m', price=0, cf=0)),
+                   ('set_flow', dict(x=a, p='l', c=1, v=8)), ('set_flow', dict(x=a, p='l', c=2, v=4)),
+                   ('set_flow', dict(x=b, p='l', c=1, v=4)), ('set_flow', dict(x=b, p='l', c=2, v=8))]
+            if rng.random() < 0.5:
+                ops.append(('get_eq', dict(x=b, kind='vle')))
+            ops.append(rng.choice([('link_with', dict(d=b, x=a, flow=rng.random() < 0.5, phase=False, TP=True)), ('proxy', dict(d=b, x=a))]))
+            if rng.random() < 0.5:
+                ops.append(('flash_TP', dict(x=b, T=320, P=200)))
+            ops.append(('unlink', dict(x=b)))
+            ops.append(('flash_TP', dict(x=rng.choice([a, b]), T=350, P=50)))
+            ops.append(('flash_TP', dict(x=b, T=300, P=100)))
+        out.append([dict(op=o, a=x) for o, x in ops])
+    return out
+
+
 def run(ctx):
-    return sc.run(ctx, 'C13', MC, FOCUS, SHAPING)
+    return sc.run(ctx, 'C13', MC, FOCUS, SHAPING, extra_paths=link_paths, extra_focus=['vget', 'uget', 'tget'])
 
 
 def replay(ctx, data):
